@@ -58,13 +58,8 @@ func ByteStreamConsumer(opts ...byteStreamOpt) Consumer {
 		if reader == nil {
 			return errors.New("ByteStreamConsumer requires a reader") // early exit
 		}
-		if data == nil {
-			return errors.New("nil destination for ByteStreamConsumer")
-		}
-		if v := reflect.ValueOf(data); v.Kind() == reflect.Ptr && v.IsNil() {
-			return errors.New("nil pointer destination for ByteStreamConsumer")
-		}
 
+		// the stream is closed on every path once the caller asked for it, refusals included
 		closer := defaultCloser
 		if vals.Close {
 			if cl, isReaderCloser := reader.(io.Closer); isReaderCloser {
@@ -74,6 +69,13 @@ func ByteStreamConsumer(opts ...byteStreamOpt) Consumer {
 		defer func() {
 			_ = closer()
 		}()
+
+		if data == nil {
+			return errors.New("nil destination for ByteStreamConsumer")
+		}
+		if v := reflect.ValueOf(data); v.Kind() == reflect.Ptr && v.IsNil() {
+			return errors.New("nil pointer destination for ByteStreamConsumer")
+		}
 
 		if readerFrom, isReaderFrom := data.(io.ReaderFrom); isReaderFrom {
 			_, err := readerFrom.ReadFrom(reader)
@@ -155,10 +157,8 @@ func ByteStreamProducer(opts ...byteStreamOpt) Producer {
 		if writer == nil {
 			return errors.New("ByteStreamProducer requires a writer") // early exit
 		}
-		if data == nil {
-			return errors.New("nil data for ByteStreamProducer")
-		}
 
+		// the stream is closed on every path once the caller asked for it, refusals included
 		closer := defaultCloser
 		if vals.Close {
 			if cl, isWriterCloser := writer.(io.Closer); isWriterCloser {
@@ -168,6 +168,10 @@ func ByteStreamProducer(opts ...byteStreamOpt) Producer {
 		defer func() {
 			_ = closer()
 		}()
+
+		if data == nil {
+			return errors.New("nil data for ByteStreamProducer")
+		}
 
 		if rc, isDataCloser := data.(io.ReadCloser); isDataCloser {
 			defer rc.Close()
